@@ -514,7 +514,7 @@ func (in *instr) rewriteCall(c *astutil.Cursor, call *ast.CallExpr) {
 		if fn.Pkg().Path() == "sync" || fn.Pkg().Path() == "sync/atomic" {
 			// WaitGroup, Cond, Map, Pool, atomics: visible to the race detector,
 			// not to the scheduler.
-			if strings.Contains(full, "WaitGroup") || strings.Contains(full, "Cond") || strings.Contains(full, "sync.Map") {
+			if strings.Contains(full, "WaitGroup") || strings.Contains(full, "Cond") || strings.Contains(full, "sync.Map") || strings.Contains(full, "sync.Pool") {
 				in.rep.Uncontrolled = append(in.rep.Uncontrolled, in.site("call "+full, call.Pos(), ""))
 			}
 		}
